@@ -20,6 +20,7 @@ func init() {
 		ruleA2(c, "C10.W4")
 		ruleR3(c, "C10.W5")
 		ruleF2(c, "C10.W5b")
+		ruleSlot(c, "C10.W6")
 	}
 }
 
